@@ -281,7 +281,58 @@ def c19(report, rng, tier, findings):
                     report.violations.append((what, {'what': what, 'case': case, 'steps': run['steps'],
                                                      'fresh_answers': r['specs']}))
                     break
-    return ['EqlModel.Props.C19'], ["falsy values in field constraints / constructor arguments are exercised by the C11/C13 checks"]
+    # third stream: ONE expression object (val = x.b) used TWICE IN ONE QUERY, once as a bare condition and once as an
+    # operand.  Every case is evaluated with the object shared and with two separate objects; a deviation of the shared
+    # run while the run with separate objects is right is the known finding C19-F1 (the per-evaluation state of an
+    # expression - its flag, its evaluating parent, its negation - lives on the object), anything else is a violation.
+    fnd = {f['id']: f for f in findings.get('findings', []) if f.get('status', 'open') == 'open'}
+    shared_cases = []
+    for i in range(max(20, n // 8)):
+        cfg = gen.Cfg(n_vars=(1, 1), n_objs=(3, 6), depth=1, falsy=0.6, int_range=(0, 2), empty_domain=0.0)
+        base = gen.gen_case(rng, cfg, f'u{i}')
+        base['vars'] = [(vid, 'A', raw) for vid, _, raw in base['vars']]
+        val = ('attr', 'b', ('var', base['vars'][0][0]))
+        lit = ('lit', rng.choice(gen.FALSY + [('i', 1), ('i', 2)]))
+        cmp_ = rng.choice([('cmp', 'eq', val, lit), ('cmp', 'ne', val, lit),
+                           ('in', val, ('lit', ('l', ('i', 0), ('n',), ('i', 2), ('s',))))])
+        tr = ('truth', val)
+        cond = rng.choice([('and', cmp_, tr), ('and', tr, cmp_), ('or', tr, cmp_), ('or', cmp_, tr)])
+        base.update({'sel': [('var', base['vars'][0][0])], 'entity': True, 'cond': [cond], 'quant': 'an'})
+        base.pop('pre_take', None)
+        shared_cases.append(base)
+    jobs = [({**c, 'share_terms': sh}, {'caching': (False, True), 'evals': 2, 'sized': 0}) for c in shared_cases for sh in (True, False)]
+    from .qcheck import eval_case
+    res3 = pmap(eval_case, jobs)
+    for ci, case in enumerate(shared_cases):
+        r_sh, r_un = res3[2 * ci], res3[2 * ci + 1]
+        if 'spec_exc' in r_sh:
+            continue
+        report.evaluations += 1
+        report.count('one_expression_object_as_condition_and_operand_of_one_query')
+        want = sorted(r_sh['spec'])
+
+        def wrong(r):
+            for key, run in r['impl'].items():
+                for ev, out in enumerate(run['outs']):
+                    if out[0] != 'rows' or sorted(out[1]) != want:
+                        return f'caching {key}, evaluation {ev + 1}: {out}'
+            return None
+        w_un, w_sh = wrong(r_un), wrong(r_sh)
+        report.traces += 8
+        if w_un:
+            what = f'rows differ from the specification (separate expression objects; {w_un}; expected {want})'
+            report.violations.append((what, {'what': what, 'case': {**case, 'share_terms': False}, 'expected': want}))
+        elif w_sh:
+            if 'C19-F1' in fnd:
+                report.known['C19-F1'] = report.known.get('C19-F1', 0) + 1
+                report.known_text['C19-F1'] = fnd['C19-F1']['what']
+            else:
+                what = (f'one expression object used as a condition and as an operand of the same query: {w_sh}; expected {want} '
+                        '(the same query with two separate expression objects is right)')
+                report.violations.append((what, {'what': what, 'case': {**case, 'share_terms': True}, 'expected': want}))
+    return ['EqlModel.Props.C19'], ["falsy values in field constraints / constructor arguments are exercised by the C11/C13 checks",
+                                    "an expression object other than a variable stands in ONE place of a query (sharing one object between a "
+                                    "condition position and an operand position of the same query is known finding C19-F1)"]
 
 
 # ------------------------------------------------------------------------------------------- C15
@@ -1337,8 +1388,14 @@ def c04_impl(job):
     out = {'id': case['id'], 'runs': {}}
     specs = []
     try:
+        vars_ = case['vars']
+        dom_of = case.get('dom_of')      # (y, k): the variable y ranges over the results of the k-th query of the pool
+        if dom_of:
+            qk = case['pool'][dom_of[1]]
+            inner_rows = surface.Oracle({**case, 'sel': qk['sel'], 'cond': qk['cond'], 'quant': 'an'}).rows()
+            vars_ = [(vid, cls, [r[0] for r in inner_rows] if vid == dom_of[0] else raw) for vid, cls, raw in vars_]
         for qd in case['pool']:
-            qc = {**case, 'sel': qd['sel'], 'cond': qd['cond'], 'quant': 'an'}
+            qc = {**case, 'vars': vars_, 'sel': qd['sel'], 'cond': qd['cond'], 'quant': 'an'}
             specs.append([surface.render_row(r) for r in surface.Oracle(qc).rows()])
         out['specs'] = specs
     except Exception as e:
@@ -1361,15 +1418,26 @@ def c04_impl(job):
             raws = {vid: [b.decode(v) for v in raw] for vid, _, raw in case['vars']}
             snap_objs = [dict(vars(o)) for o in b.objs]
             with symbolic_mode():
+                from entity_query_language import let
                 for vid, cls, raw in case['vars']:
-                    from entity_query_language import let
+                    if dom_of and vid == dom_of[0]:
+                        continue
                     b.vars[vid] = let(b.classes[cls], raws[vid], name=f"v{vid}")
-                queries = []
-                for qd in case['pool']:
+
+                def mk_query(qd):
                     sel = [b.term(t) for t in qd['sel']]
                     conds = [b.cond(c) for c in qd['cond']]
                     desc = entity(sel[0], *conds) if len(sel) == 1 else set_of(sel, *conds)
-                    queries.append((an(desc), sel))
+                    return (an(desc), sel)
+                queries = [None] * len(case['pool'])
+                if dom_of:
+                    # a variable whose DOMAIN is another query of the pool (the query object itself)
+                    queries[dom_of[1]] = mk_query(case['pool'][dom_of[1]])
+                    ycls = [cls for vid, cls, _ in case['vars'] if vid == dom_of[0]][0]
+                    b.vars[dom_of[0]] = let(b.classes[ycls], domain=queries[dom_of[1]][0])
+                for qi_, qd in enumerate(case['pool']):
+                    if queries[qi_] is None:
+                        queries[qi_] = mk_query(qd)
 
             def row(sel, r):
                 return surface.render_row((b.encode(r),) if len(sel) == 1 else tuple(b.encode(r[s_]) for s_ in sel))
@@ -1401,6 +1469,8 @@ def c04_impl(job):
                         steps.append(('raised', qi, None))
                     finally:
                         b.counter.raise_at = None
+            while held:
+                held.pop().close()   # closing an abandoned iterator must not raise (an exception here is reported)
             unchanged = all([id(x) for x in raws[vid]] == [id(b.decode(v)) for v in raw] for vid, _, raw in case['vars']) \
                 and snap_objs == [dict(vars(o)) for o in b.objs]
             out['runs'][key] = {'steps': steps, 'data_unchanged': unchanged, 'nonuniform': probe.nonuniform}
@@ -1408,7 +1478,10 @@ def c04_impl(job):
             out['runs'][key] = {'exc': f'{type(e).__name__}: {str(e)[:200]}', 'steps': steps}
         finally:
             for it_ in held:
-                it_.close()
+                try:
+                    it_.close()
+                except Exception:
+                    pass
             probe.__exit__()
             enable_caching()
             impl.reset_library_state()
@@ -1454,6 +1527,17 @@ def c04(report, rng, tier, findings):
         if empty_var is None and rng.random() < 0.2:
             # a query that aggregates the objects' own list attributes (the user's lists must stay what they are)
             pool.append({'sel': [('concat', 300, ('attr', 'items', ('var', ids[0])))], 'cond': []})
+        dom_of = None
+        if empty_var is None and i % 7 == 3:
+            # a variable y whose DOMAIN is a query of the pool (the first one, over x), and a query over y: abandoning
+            # the query over y leaves the inner query part-way evaluated too
+            X0, yv = ('var', ids[0]), 70
+            gx = gen.CondGen(random.Random(i * 31 + 5), cfg, [ids[0]])
+            gy = gen.CondGen(random.Random(i * 31 + 6), cfg, [yv])
+            pool = [{'sel': [X0], 'cond': [gx.cond(1)]}] + pool[:1] + [{'sel': [('var', yv)], 'cond': [gy.cond(1)]}]
+            base['vars'] = list(base['vars']) + [(yv, 'A', [])]
+            dom_of = (yv, 0)
+            report.count('a_variable_ranging_over_a_query_of_the_pool')
         hist = []
         for _ in range(rng.randint(2, 6 if tier == 'quick' else 10)):
             qi = rng.randrange(len(pool))
@@ -1471,6 +1555,8 @@ def c04(report, rng, tier, findings):
         if any(op[0] == 'hold' for op in hist):
             report.count('abandoned_without_closing')
         case = {**base, 'pool': pool, 'hist': hist}
+        if dom_of:
+            case['dom_of'] = dom_of
         cases.append(case)
     results = pmap(c04_impl, [(c, {'caching': (False, True)}) for c in cases])
     fnd = {f['id']: f for f in findings.get('findings', []) if f.get('status', 'open') == 'open'}
